@@ -640,6 +640,8 @@ example : ¬ (Codec.decIsKey ⟨false, 1, -1⟩ 4591870180066957722 = true ∧
 example : Codec.decIsKey ⟨false, (2 ^ 52 + 4877398396442247168 % 2 ^ 52) * 2 ^ 8, 0⟩ ((4877398396442247168 : Nat) : Int) = true :=
   C04_decimal_exact_int_accepted 4877398396442247168 8 (by decide) (by decide)
 example : (2 ^ 52 + 4877398396442247168 % 2 ^ 52) * 2 ^ 8 = 1152921504606846976 := by decide
+example : Codec.digitsVal ("1152921504606846976".toList) = some 1152921504606846976 := by decide
+example : Codec.digitsVal ("12a".toList) = none := by decide
 -- -0.1
 example : Codec.decIsKey ⟨true, 1, -1⟩ (-4591870180066957722) = true := by decide
 
